@@ -240,7 +240,7 @@ def run(tier, replay=None):
             raise RuntimeError("model driver failed: " + out[-2000:])
         by = {c.split()[0]: c for c in cs}
         nconc = 0; viol = []; paths = {"closed": 0, "quadrature_or_screened": 0}
-        kn = {"F-C12-tailcut": [], "F-C12-screen": [], "F-C12-closedform": [], "F-C12-p2guard": [], "F-C15-premature": []}
+        kn = {"F-C12-tailcut": [], "F-C12-screen": [], "F-C12-closedform": [], "F-C12-p2guard": [], "F-C15-premature": [], "F-C15-coincidence": []}
         active = set(k.get("id") for k in load_known() if k.get("status") == "known")
         for l in out.splitlines():
             if not l.startswith("R "):
@@ -278,6 +278,9 @@ def run(tier, replay=None):
                     cause = "F-C12-screen" if f["tailfired"] == "0" else "F-C12-tailcut"
                 elif abs(fl("v_noscreen_notail")) <= 16e-12:
                     cause = "F-C15-premature"      # integrate_small runs the one-point scheme at tolerance 1e-12
+                elif "v_defer2" in f and (good("v_defer2") or good("v_defer4")):
+                    # nothing screened or cut, and the value is restored when the first acceptances of the adaptive quadrature are deferred
+                    cause = "F-C15-coincidence"
             if cause and cause in active:
                 kn[cause].append((cid, l))
             else:
